@@ -88,11 +88,14 @@ func (o *objectGoArrayReflect) _hasStr(name unistring.String) bool {
 }
 
 func (o *objectGoArrayReflect) _getIdx(idx int) Value {
-	if v := o.valueCache.get(idx); v != nil {
-		return v.esValue()
-	}
-
 	v := o.fieldsValue.Index(idx)
+	if cached := o.valueCache.get(idx); cached != nil {
+		// Go code may have re-allocated the slice since the wrapper was handed out
+		if rv := cached.reflectValue(); !v.CanAddr() || !rv.CanAddr() || rv.Addr().Pointer() == v.Addr().Pointer() {
+			return cached.esValue()
+		}
+		o.valueCache[idx] = nil
+	}
 
 	res, w := o.elemToValue(v)
 	if w != nil {
